@@ -808,4 +808,73 @@ theorem fmtOf_userStr (hp : Bool) (len : Nat) (tab : Bool) :
   · intro h; have : ¬ len ≤ fieldWidth hp := by omega
     simp [fmtOf, this]
 
+
+/-! ## dump stream -/
+
+/-- invariant of a history run with both dump sinks on: file = string, and a non-empty selection is armed -/
+def DumpSt.Sync (s : DumpSt) : Prop := s.file = s.str ∧ (s.info.any = true → s.info.on = true)
+
+theorem dumpStep_sync (s : DumpSt) (sim : Option Bool × List Char) (h : s.Sync) :
+    (dumpStep true true true s sim).Sync := by
+  obtain ⟨hf, ha⟩ := h
+  rcases sim with ⟨_ | app, d⟩
+  · simp only [dumpStep, dumpSim, DumpSt.Sync, Bool.true_and, Bool.and_true, if_true]
+    refine ⟨?_, by simp⟩
+    by_cases hany : s.info.any = true
+    · simp [hany, ha hany, hf]
+    · simp [hany, hf]
+  · simp [dumpStep, dumpSim, DumpSt.Sync, DumpSt.readDump, hf]
+
+/-- **dump file = dump string** for every history of simulations (DUMP blocks with or without -append, simulations
+without DUMP, over any number of calls) during which both switches stay on, started from a synchronised state — in
+particular from a fresh instance -/
+theorem dump_both_on_identical (sims : List (Option Bool × List Char)) (s : DumpSt) (h : s.Sync) :
+    (sims.foldl (dumpStep true true true) s).file = (sims.foldl (dumpStep true true true) s).str := by
+  have : (sims.foldl (dumpStep true true true) s).Sync := by
+    induction sims generalizing s with
+    | nil => exact h
+    | cons x xs ih => exact ih _ (dumpStep_sync s x h)
+  exact this.1
+
+theorem dump_fresh_sync : ({} : DumpSt).Sync := ⟨rfl, by simp⟩
+
+/-- a disabled dump sink receives nothing -/
+theorem dump_disabled_nothing (fileOn strOn prDump : Bool) (s : DumpSt) (sim : Option Bool × List Char) :
+    (fileOn = false → (dumpStep fileOn strOn prDump s sim).file = s.file) ∧
+    (strOn = false → (dumpStep fileOn strOn prDump s sim).str = s.str) := by
+  constructor
+  · intro h; subst h
+    rcases sim with ⟨_ | app, d⟩ <;> simp only [dumpStep, dumpSim, DumpSt.readDump] <;> split <;> simp
+  · intro h; subst h
+    rcases sim with ⟨_ | app, d⟩ <;> simp [dumpStep, dumpSim, DumpSt.readDump]
+
+/-- -append: the new text is added behind what the sink held, otherwise it replaces it -/
+theorem dump_append_semantics (d : List Char) (s : DumpSt) (app : Bool) :
+    (dumpStep true true true s (some app, d)).file = (if app then s.file ++ d else d) ∧
+    (dumpStep true true true s (some app, d)).str = (if app then s.str ++ d else d) := by
+  cases app <;> simp [dumpStep, dumpSim, DumpSt.readDump, putDump]
+
+/-- a DUMP block is executed once: after the simulation that read it (whichever sink was on), a simulation without
+a DUMP block writes nothing to either sink, whatever the switches are then -/
+theorem dump_one_shot (f1 s1 f2 s2 : Bool) (h : f1 = true ∨ s1 = true) (st : DumpSt) (app : Bool) (d e : List Char) :
+    let a := dumpStep f1 s1 true st (some app, d)
+    (dumpStep f2 s2 true a (none, e)).file = a.file ∧ (dumpStep f2 s2 true a (none, e)).str = a.str := by
+  cases f1 <;> cases s1 <;> cases f2 <;> cases s2 <;> simp [dumpStep, dumpSim, DumpSt.readDump] at h ⊢
+
+/-- the code as written consults `pr.dump` (PRINT -dump false) for the file only: with both sinks on the string
+receives the dump and the file does not (the full statement "both on ⇒ identical" needs `pr.dump` on) -/
+theorem dump_print_off_differs :
+    let r := dumpStep true true false {} (some false, "A".toList)
+    r.file = [] ∧ r.str = "A".toList := by
+  decide
+
+/-- non-vacuity: both sinks on over three simulations (DUMP -append, no DUMP, DUMP): one dump per DUMP block, equal sinks -/
+example :
+    let r := [(some true, "a".toList), (none, "b".toList), (some false, "c".toList)].foldl (dumpStep true true true)
+      ({ file := "x".toList, str := "x".toList } : DumpSt)
+    r.file = "c".toList ∧ r.str = "c".toList ∧
+    ([(some true, "a".toList), (none, "b".toList)].foldl (dumpStep true true true)
+      ({ file := "x".toList, str := "x".toList } : DumpSt)).file = "xa".toList := by
+  decide
+
 end PhreeqcVerif.Route
